@@ -87,6 +87,29 @@ def allowed():
     return (packer.Error, AvpDecodeError)
 
 
+def lenient_member_count(buf):
+    """Number of member AVPs of a grouped payload, or None if it is malformed: a member header that does not fit or
+    data overrunning the payload.  A length field *below* the header size is read as "no data" - the library is lenient
+    there and the property does not decide that case."""
+    pos = 0
+    n = 0
+    while pos < len(buf):
+        if pos + 8 > len(buf):
+            return None
+        flags = buf[pos + 4]
+        length = int.from_bytes(buf[pos + 5:pos + 8], "big")
+        hdr = 12 if flags & 0x80 else 8
+        if pos + hdr > len(buf):
+            return None
+        dlen = max(0, length - hdr)
+        end = pos + hdr + dlen + rc.pad4(dlen)
+        if end > len(buf):
+            return None
+        pos = end
+        n += 1
+    return n
+
+
 def walk_values(avps, out, ctx, depth=0):
     """.value of every decoded AVP returns or raises AvpDecodeError; str() never raises."""
     from diameter.message.avp import AvpDecodeError, AvpGrouped
@@ -103,8 +126,28 @@ def walk_values(avps, out, ctx, depth=0):
         except Exception as e:
             out.append((f"avp.value-raises:{type(a).__name__}:{type(e).__name__}", f"{ctx}: code {a.code} payload {a.payload.hex()[:40]}: {e}"))
             continue
-        if isinstance(a, AvpGrouped) and depth < 20:
-            walk_values(v, out, ctx, depth + 1)
+        if isinstance(a, AvpGrouped):
+            # the reference codec decides whether the grouped payload is well-formed; every read must agree with it
+            n_ref = lenient_member_count(a.payload)
+            for attempt in ("first", "second"):
+                if attempt == "second":
+                    try:
+                        v = a.value
+                    except AvpDecodeError:
+                        v = None
+                    except Exception as e:
+                        out.append((f"avp.value-raises:AvpGrouped:{type(e).__name__}:on-second-read", f"{ctx}: code {a.code}"))
+                        break
+                if n_ref is None and v is not None:
+                    out.append((f"avp.value-returns-for-malformed-grouped-payload:on-{attempt}-read",
+                                f"{ctx}: code {a.code} payload {a.payload.hex()[:60]}: returned {len(v)} members"))
+                    break
+                if n_ref is not None and (v is None or len(v) != n_ref):
+                    out.append((f"avp.value-wrong-for-well-formed-grouped-payload:on-{attempt}-read",
+                                f"{ctx}: code {a.code}: {None if v is None else len(v)} members, wire has {n_ref}"))
+                    break
+            if v is not None and depth < 20:
+                walk_values(v, out, ctx, depth + 1)
 
 
 def nesting_depth(buf, limit=40):
